@@ -203,7 +203,7 @@ func runHistory(c Case, skipErased bool) (st stats, discard string, err error) {
 			names[j] = fmt.Sprintf("Q%d", id)
 			nm[id] = names[j]
 		}
-		got := i.Query(step.Text(nm)+".", names, 30, int64(200*rr.Stats.Steps+20000))
+		got := i.Query(step.Text(nm)+".", names, 30, rr.Stats.RealBudget())
 		if e := diff.Compare(rr, got, false); e != nil {
 			return st, "", fmt.Errorf("step %d (%s): %v", k+1, step.Text(nm), e)
 		}
